@@ -39,7 +39,7 @@ def main():
             print("MACHINERY-ERROR: the C20 runtime twin does not build against", REPO)
             return 2
         cargo(["--features", "const_side"])
-        cargo(["--bin", "runner", "--features", "const_side twin"])
+        cargo(["--bin", "runner", "--features", "const_side twin shared_add_word"])
         return 0
     if rc_twin != 0:
         print(out_twin)
@@ -59,7 +59,10 @@ def main():
             f.write(out_c)
         violations.append(("const-side-does-not-compile", "the same constructor/accessor calls compile in function bodies but not in const/static items: " + "; ".join(errs[:4]), path))
     else:
-        rc_r, out_r = cargo(["--bin", "runner", "--features", "const_side twin"])
+        rc_r, out_r = cargo(["--bin", "runner", "--features", "const_side twin shared_add_word"])
+        if rc_r != 0:
+            # add_word may legitimately take `&mut self`: C20 does not say which methods work through a shared reference
+            rc_r, out_r = cargo(["--bin", "runner", "--features", "const_side twin"])
         if rc_r != 0:
             print(out_r)
             print("MACHINERY-ERROR: the C20 runner does not build although both sides do")
